@@ -196,8 +196,8 @@ def check_world(refs, pos, acc, key=None, setting=0):
     qm = (7, pos[-1] + 1.0 + 700.0, sorted(pos[-1] - p for p in pos))
     n = len(pos)
     extra = list(SETTINGS[setting])
-    o1 = driver.run_world(dict(refs=refs, queries=[q]), 'separate', extra=extra, extensions=[sink_seeds()], keep_result=True)
-    o2 = driver.run_world(dict(refs=refs, queries=[qm]), 'separate', extra=extra, extensions=[sink_seeds()], keep_result=True)
+    o1 = driver.run_world(dict(refs=refs, queries=[q]), 'separate', extra=extra, extensions=[sink_seeds()], in_child=_nseg)
+    o2 = driver.run_world(dict(refs=refs, queries=[qm]), 'separate', extra=extra, extensions=[sink_seeds()], in_child=_nseg)
     found = []
     case = dict(refs=[[m[0], m[1], list(m[2])] for m in refs], query=list(pos), setting=setting)
     if o1.error or o2.error:
@@ -229,7 +229,7 @@ def check_world(refs, pos, acc, key=None, setting=0):
     if acc is not None:
         acc.evals += 2
         acc.transitions += 6 + sum(o1.map_calls) + sum(o2.map_calls)
-        nseg = max([sum(1 for s in r.segments if not s.empty) for r in o1.result.rows] + [0])
+        nseg = o1.extra or 0
         acc.state((len(r1), tuple(r['HitEnum'] for r in r1)))
         if nseg >= 2:
             acc.nontriv(key)
@@ -244,6 +244,10 @@ def check_world(refs, pos, acc, key=None, setting=0):
             acc.viol(f[0], case, f[1], f[2], f[3])
         acc.sample(lambda: dict(query=list(pos), refs='%d lattice-1400 references' % len(refs)))
     return found
+
+
+def _nseg(o):
+    return max([sum(1 for s in r.segments if not s.empty) for r in (o.result.rows if o.result is not None else [])] + [0])
 
 
 def sink_seeds():
